@@ -9,6 +9,7 @@ import ast
 
 from .. import astutil as A
 from ..fa import FA
+from .effects import Assume, call_atom
 
 FSDS = "storage_filesystem._FilesystemDataSource"
 OSERROR_NAMES = {"IOError", "OSError", "EnvironmentError", "Exception", "BaseException"}
@@ -41,11 +42,24 @@ def check_write_order(ck, R="C08.R1", only_output=False):
     _output_order(ck, R)
 
 
+def recv_calls(fa, name, recv_text):
+    """Calls `<recv>.name(...)` whose receiver is the given field, directly or through a local alias."""
+    out = []
+    for c in fa.calls(name):
+        rv = A.call_recv(c)
+        if rv is None:
+            continue
+        if A.dotted(rv) == recv_text or (fa.nodes(c) and fa.xnorm(rv, fa.nodes(c)[0]) == recv_text):
+            out.append(c)
+    return out
+
+
 def _memoize_order(ck, R):
     mz = FA(ck, "storage_base.StorageBackendBase.memoize")
-    st = [c for c in mz.calls("store") if A.dotted(A.call_recv(c)) == "self.codec"]
+    st = recv_calls(mz, "store", "self.codec")
     pm = [c for c in mz.calls("put_memento")]
-    asg = [s for s in mz.stmts(ast.Assign) if any(A.dotted(t) == "memento.content_key" for t in s.targets)]
+    mp = mz.fi.params[2] if len(mz.fi.params) > 3 else "memento"
+    asg = [s for s in mz.stmts(ast.Assign) if any(A.dotted(t) == mp + ".content_key" for t in s.targets)]
     ok = bool(st) and bool(pm) and all(mz.cfg.must_pass(mz.nodes_all(st), i) for i in mz.nodes_all(pm))
     ck.ob(R, mz.key(None, "data-before-metadata"), ok, "codec.store precedes put_memento on every path" if ok else
           "the memento can be written before (or without) the result data: a crash in between leaves a memento that points at nothing", mz.where())
@@ -54,7 +68,7 @@ def _memoize_order(ck, R):
           "put_memento can run before the content key is recorded", mz.where())
     # the memory cache is written through only once the store has accepted the result: a failed
     # write must not leave the cache (or its weak references) claiming the call is memoized
-    cputs = [c for c in mz.calls("put") if A.dotted(A.call_recv(c)) == "self._memory_cache"]
+    cputs = recv_calls(mz, "put", "self._memory_cache")
     okc = bool(cputs) and bool(pm) and all(mz.cfg.must_pass(mz.nodes_all(pm), i) for i in mz.nodes_all(cputs))
     ck.ob(R, mz.key(None, "cache-after-store"), okc, "the cache is filled after the memento was written" if okc else
           "memoize fills the memory cache before the store write: when that write fails (disk full) is_memoized keeps answering True from the "
@@ -68,37 +82,175 @@ def _memoize_order(ck, R):
           "result data is (re)written after the memento was published", mz.where())
 
 
+LINK_PATH = "_get_non_versioned_link_path"
+OBJ_PATH = "_get_path_versioned"
+
+
+def _strip_path_wrappers(e):
+    """str(p) / Path(p) / os.fspath(p) -> p"""
+    while isinstance(e, ast.Call) and A.call_attr(e) in ("str", "Path", "fspath", "PurePath") and len(e.args) == 1 and not e.keywords:
+        e = e.args[0]
+    return e
+
+
+def open_path(call):
+    """The path expression of an `open(path, ...)` / `path.open(...)` call."""
+    if isinstance(call.func, ast.Attribute) and not (A.dotted(call.func.value) or "") in ("io", "os", "builtins", "codecs"):
+        return call.func.value
+    return call.args[0] if call.args else A.kwarg(call, "file")
+
+
+def path_role(fa, expr, node_id=None):
+    """'pointer' when the expression IS the mutable link path of a key (the value of the link-path builder,
+    through str()/Path() and temporaries), 'object' when it is the value of the versioned-path builder,
+    otherwise None (e.g. a path merely derived from one of them: a parent directory, a staging name)."""
+    if expr is None:
+        return None
+    ids = [node_id] if node_id is not None else fa.nodes(expr)
+    if not ids:
+        return None
+    roles = set()
+    for i in ids:
+        stack = [(_strip_path_wrappers(expr), i, 8)]
+        while stack:
+            e, n, dep = stack.pop()
+            e = _strip_path_wrappers(e)
+            if isinstance(e, ast.Name) and dep > 0:
+                ds = fa.df.reaching(n, e.id)
+                if ds and all(d.kind in ("assign", "with") and d.value is not None for d in ds):
+                    stack.extend((d.value, d.node, dep - 1) for d in ds)
+                    continue
+            if isinstance(e, ast.Call) and A.call_attr(e) == LINK_PATH:
+                roles.add("pointer")
+            elif isinstance(e, ast.Call) and A.call_attr(e) == OBJ_PATH:
+                roles.add("object")
+            else:
+                roles.add(None)
+    return roles.pop() if len(roles) == 1 else None
+
+
+ONESHOT = ("write_text", "write_bytes")      # Path.write_*: open, write, close in one call
+
+
+def write_opens(ck, fa):
+    """Write sites of a function (write-mode opens and Path.write_text / write_bytes), by what they write:
+    {'pointer': [...], 'object': [...]} ('object' = any write that is not the pointer: the versioned path itself
+    or a staging name)."""
+    out = {"pointer": [], "object": []}
+    for c in fa.calls():
+        if A.call_attr(c) in ("open",) + ONESHOT and c in ck.cg.fs_write_sites.get(fa.qual, []) and fa.nodes(c):
+            out["pointer" if path_role(fa, open_path(c), fa.nodes(c)[0]) == "pointer" else "object"].append(c)
+    return out
+
+
+def pointer_writers(ck):
+    """Methods of the filesystem data source that write (or atomically replace) the pointer of a key directly."""
+    cls = ck.repo.cls(FSDS)
+    out = set()
+    for m in cls.methods.values():
+        f = FA(ck, m)
+        if write_opens(ck, f)["pointer"] or _atomic_publications(f):
+            out.add(m.name)
+    return out
+
+
+def _atomic_publications(fa):
+    return [c for c in fa.calls("replace") + fa.calls("rename") if (A.call_dotted(c) or "").startswith("os.") and len(c.args) == 2
+            and fa.nodes(c) and path_role(fa, c.args[1], fa.nodes(c)[0]) == "pointer"]
+
+
+def _with_ancestors(fa, node):
+    out = []
+    n = fa.pm.get(node)
+    while n is not None:
+        if isinstance(n, (ast.With, ast.AsyncWith)):
+            out.append(n)
+        n = fa.pm.get(n)
+    return out
+
+
 def _output_order(ck, R):
     fo = FA(ck, FSDS + ".output")
     mk = [c for c in fo.calls("makedirs")] + [c for c in fo.calls("mkdir")]
-    wopen = [c for c in fo.calls("open") if c in ck.cg.fs_write_sites.get(fo.qual, [])]
-    pub = [c for c in fo.calls("_write_non_versioned_link")]
-    copy = [c for c in fo.calls("copyfileobj")] + [c for c in fo.calls("write")]
+    wo = write_opens(ck, fo)
+    wopen = wo["object"]
+    writers = pointer_writers(ck) - {fo.fi.name}
+    # publication of the pointer: a call of a method that writes it, or the pointer write itself when it is inlined
+    pub_calls = [c for c in fo.calls() if A.call_attr(c) in writers and A.dotted(A.call_recv(c)) in ("self", "cls")]
+    pub = pub_calls + wo["pointer"] + _atomic_publications(fo)
+    holds_object = lambda w: any(any(x is c for x in ast.walk(it.context_expr)) for it in w.items for c in wopen)
+    holds_pointer = lambda w: any(any(x is c for x in ast.walk(it.context_expr)) for it in w.items for c in wo["pointer"])
+    # the statements that put bytes into the object (not the write of the pointer's own content)
+    copy = [c for c in fo.calls("copyfileobj") + fo.calls("write") if not any(holds_pointer(w) for w in _with_ancestors(fo, c))]
+    copy += [c for c in wopen if A.call_attr(c) in ONESHOT]
     okm = bool(mk) and bool(wopen) and all(fo.cfg.must_pass(fo.nodes_all(mk), i) for i in fo.nodes_all(wopen))
     ck.ob(R, fo.key(None, "mkdir-before-open"), okm, "version directory created before the object is opened" if okm else
           "the object can be opened before its version directory exists", fo.where())
     okp = bool(pub) and bool(copy) and all(fo.cfg.must_pass(fo.nodes_all(copy), i) for i in fo.nodes_all(pub))
-    # and the publication is outside the `with` that holds the object open
+    # and the publication is outside every `with` that holds the object open
     for p in pub:
-        w = fo.enclosing(p, ast.With)
-        if w is not None and any(c in list(ast.walk(w)) for c in wopen):
+        if any(holds_object(w) for w in _with_ancestors(fo, p)):
             okp = False
+    # an object opened without a `with` must be closed before the publication
+    for c in wopen:
+        if not any(holds_object(w) for w in _with_ancestors(fo, c)) and A.call_attr(c) not in ONESHOT:
+            closes = fo.calls("close")
+            if not (closes and all(fo.cfg.must_pass(fo.nodes_all(closes), i) for i in fo.nodes_all(pub))):
+                okp = False
     ck.ob(R, fo.key(None, "object-before-pointer"), okp, "the object is written and closed before the pointer is published" if okp else
           "the pointer can be published before the object is completely written and closed: a crash leaves a pointer to partial data", fo.where())
     # pointer designates the object just written
-    for p in pub:
+    wp = [c for c in fo.calls(OBJ_PATH)]
+    for p in pub_calls:
         # the same value that named the path the bytes were written to
-        wp = [c for c in fo.calls("_get_path_versioned")]
         okv = len(p.args) == 1 and isinstance(p.args[0], ast.Name) and "call:uuid4" in fo.deps(p.args[0]) and \
             any(len(c.args) == 1 and isinstance(c.args[0], ast.Name) and c.args[0].id == p.args[0].id
                 and all(fo.df.same_defs(p.args[0].id, a, b) for a in fo.nodes(c) for b in fo.nodes(p)) for c in wp)
+        if not okv and len(p.args) == 1 and fo.nodes(p):
+            # spelled differently: the argument and the versioned path's key are the same fresh value
+            at = fo.nodes(p)[0]
+            okv = "call:uuid4" in fo.deps(p.args[0]) and any(
+                len(c.args) == 1 and fo.nodes(c) and _same_value(fo, c.args[0], fo.nodes(c)[0], p.args[0], at) for c in wp)
+        ck.ob(R, fo.key(None, "pointer-target"), okv, "the pointer designates the version just written" if okv else
+              "the published pointer does not designate the version just written", fo.where(p))
+    for p in wo["pointer"]:
+        # inlined pointer write: what is written into it is the very path the object was written to
+        w = [x for x in _with_ancestors(fo, p) if holds_pointer(x)]
+        wr = [c for c in fo.calls("write") if w and fo.inside(c, w[0]) and c.args]
+        if A.call_attr(p) in ONESHOT and p.args:
+            wr = [p]
+        okv = bool(wr) and bool(wopen)
+        for c in wr:
+            for o in wopen:
+                if not (fo.nodes(c) and fo.nodes(o) and "call:uuid4" in fo.deps(c.args[0]) and
+                        _same_value(fo, _strip_path_wrappers(c.args[0]), fo.nodes(c)[0], _strip_path_wrappers(open_path(o)), fo.nodes(o)[0])):
+                    okv = False
         ck.ob(R, fo.key(None, "pointer-target"), okv, "the pointer designates the version just written" if okv else
               "the published pointer does not designate the version just written", fo.where(p))
     wl = FA(ck, FSDS + "._write_non_versioned_link")
-    wr = [c for c in wl.calls("write")]
-    okw = bool(wr) and all("call:_get_path_versioned" in wl.deps(c.args[0]) for c in wr if c.args)
+    wlo = write_opens(ck, wl)["pointer"]
+    wr = [c for c in wl.calls("write") if any(any(any(x is o for x in ast.walk(it.context_expr)) for it in w.items for o in wlo)
+                                               for w in _with_ancestors(wl, c))] or [c for c in wl.calls("write")]
+    wr += [c for c in wlo if A.call_attr(c) in ONESHOT]
+    okw = bool(wr) and all("call:" + OBJ_PATH in wl.deps(c.args[0]) for c in wr if c.args)
     ck.ob(R, wl.key(None, "pointer-content"), okw, "pointer content is the versioned object path" if okw else
           "the pointer file does not contain the versioned object path", wl.where())
+
+
+def _same_value(fa, e1, n1, e2, n2):
+    """Do two local names / expressions denote the same value: the same reaching definitions (through plain
+    aliases), or — for expressions — the same name-independent text built from single definitions that
+    contains no call (a call evaluated twice need not return the same thing)."""
+    from .c07 import _roots
+    e1, e2 = _strip_path_wrappers(e1), _strip_path_wrappers(e2)
+    if isinstance(e1, ast.Name) and isinstance(e2, ast.Name):
+        r1, r2 = _roots(fa, e1, n1), _roots(fa, e2, n2)
+        return bool(r1) and r1 == r2
+    if not isinstance(e1, ast.Name) and not isinstance(e2, ast.Name):
+        if any(isinstance(x, ast.Call) for x in list(ast.walk(e1)) + list(ast.walk(e2))):
+            return False
+        return fa.xnorm(e1, n1) == fa.xnorm(e2, n2)
+    return False
 
 
 def check_pointer_trust(ck):
@@ -107,17 +259,9 @@ def check_pointer_trust(ck):
                "atomic rename, or every consumer of a pointer's content opens the designated path or is dominated by "
                "a regular-file test of that path (an existence test is not enough: an empty pointer designates '.')", 3)
     wl = FA(ck, FSDS + "._write_non_versioned_link")
-    opens = [c for c in wl.calls("open") if c in ck.cg.fs_write_sites.get(wl.qual, [])]
-    link_names = set()
-    for s in wl.stmts(ast.Assign):
-        if isinstance(s.value, ast.Call) and A.call_attr(s.value) == "_get_non_versioned_link_path":
-            for t in s.targets:
-                if isinstance(t, ast.Name):
-                    link_names.add(t.id)
-    direct = [c for c in opens if set(A.names_in(c.args[0] if c.args else c)) & link_names or
-              (A.call_recv(c) is not None and set(A.names_in(A.call_recv(c))) & link_names)]
-    renames = [c for c in wl.calls("replace") + wl.calls("rename") if (A.call_dotted(c) or "").startswith("os.")
-               and len(c.args) == 2 and set(A.names_in(c.args[1])) & link_names]
+    # by role: a write-mode open of the link path itself / an os.replace whose destination is the link path
+    direct = write_opens(ck, wl)["pointer"]
+    renames = _atomic_publications(wl)
     atomic = not direct and bool(renames)
     ex = FA(ck, FSDS + ".exists_nonversioned")
     rd = [c for c in ex.calls("_read_non_versioned_link")]
@@ -150,12 +294,11 @@ def check_pointer_trust(ck):
             sites = ck.cg.call_sites_of(lambda c, cands: A.call_attr(c) == "get_versioned_key")
             for (gfi, gcall, _) in sites:
                 g = FA(ck, gfi)
-                tests = [n.id for n in g.cfg.nodes if n.kind == "test" and any(A.call_attr(c) == "exists_nonversioned" for c in A.calls_in(n.ast))
-                         and not isinstance(n.ast, ast.UnaryOp)]
-                def edge_ok(s, d, l, tests=tests):
-                    return not (s in tests and l == "T")
-                live = g.cfg.reach([g.cfg.entry], edge_ok=edge_ok)
-                okd = bool(tests) and not (set(g.nodes(gcall)) & live)
+                # decided as: assuming the validity test answers False, the call is unreachable (whatever the
+                # shape of the test: guard clause, nested if, negation, conjunction with other conditions)
+                invalid = Assume(g, call_atom(("exists_nonversioned",), False))
+                tested = any(n.kind == "test" and n.id in g.cfg.reachable_nodes() and invalid.truth(n.ast, n.id) is not None for n in g.cfg.nodes)
+                okd = tested and not invalid.live(gcall)
                 ck.ob(R, g.key(gcall, "validated-before-use"), okd or atomic,
                       "get_versioned_key is reached only after a positive exists_nonversioned test" if okd else
                       "get_versioned_key is called without a dominating validity test of the pointer", g.where(gcall))
@@ -164,14 +307,120 @@ def check_pointer_trust(ck):
                   "new consumer of pointer content at %s is neither an opener nor validated" % fi.qual, f2.where(call))
 
 
+def _after_handler(fa, handler):
+    """What the function returns on the paths that run through an exception handler:
+    ([(leaf value expr, node)], [raise statements reachable from the handler before any return])."""
+    A0 = Assume(fa, lambda e: None)
+    vals, raises = [], []
+    for hn in [n.id for n in fa.cfg.nodes if n.kind == "except" and n.ast is handler and n.id in fa.cfg.reachable_nodes()]:
+        IN = A0.flow({hn: A0.handler_seed(hn)})
+        for i in IN:
+            nd = fa.cfg.node(i)
+            if nd.kind == "stmt" and isinstance(nd.ast, ast.Raise):
+                raises.append(nd.ast)
+            if nd.kind == "stmt" and isinstance(nd.ast, ast.Return):
+                if nd.ast.value is None:
+                    vals.append((ast.Constant(None), i, IN))
+                else:
+                    vals += [(e, n, IN) for (e, n) in A0.cases(nd.ast.value, i, IN)]
+    return vals, raises
+
+
+def _valid_flag_is(fa, e, n, value, IN=None):
+    """Is the leaf value an ExistingMementoResult(...) whose valid flag is the given constant (on the paths
+    the definitions `IN` describe)?"""
+    if not (isinstance(e, ast.Call) and A.call_attr(e) == "ExistingMementoResult"):
+        return False
+    v = A.kwarg(e, "valid_result")
+    if v is None and len(e.args) >= 2:
+        v = e.args[1]
+    if v is None:
+        return False
+    leaves = Assume(fa, lambda x: None).cases(v, n, IN if IN is not None else fa.df.IN)
+    return bool(leaves) and all(isinstance(x, ast.Constant) and x.value is value for (x, _) in leaves)
+
+
+def _handler_appends_none(fa, handler, read_call):
+    """From the handler, every path to the next iteration / the function's end appends None to the result list
+    (directly, or through a variable that holds None on those paths), and none raises or returns early."""
+    A0 = Assume(fa, lambda e: None)
+    loop = fa.enclosing(read_call, (ast.For, ast.While))
+    ok = False
+    for hn in [n.id for n in fa.cfg.nodes if n.kind == "except" and n.ast is handler and n.id in fa.cfg.reachable_nodes()]:
+        heads = set()
+        if loop is not None:
+            heads = set(fa.cfg.nodes_of(loop)) | set(fa.cfg.nodes_of(loop.test) if isinstance(loop, ast.While) else [])
+        IN = A0.flow({hn: A0.handler_seed(hn)}, removed=heads)     # this iteration only
+        appends = []
+        for c in fa.calls("append"):
+            for i in fa.nodes(c):
+                if i in IN and len(c.args) == 1:
+                    leaves = A0.cases(c.args[0], i, IN)
+                    if leaves and all(A.is_none(e) for (e, _) in leaves):
+                        appends.append(i)
+        if not appends:
+            return False
+        # without those appends, neither the loop head (next element), the exit nor a raise is reachable
+        stops = set(appends)
+        r = fa.cfg.reach([hn], removed=stops)
+        ends = {fa.cfg.exit} | heads
+        if r & ends:
+            return False
+        if any(fa.cfg.node(i).kind == "stmt" and isinstance(fa.cfg.node(i).ast, (ast.Raise, ast.Return)) for i in r):
+            return False
+        ok = True
+    return ok
+
+
+def _is_valid_flag(fa, x, node_id, depth=5):
+    """Does expression `x` read the valid flag of process_existing_memento's answer: `<r>.valid_result`, `<r>[1]`,
+    or the second name of `value, valid = <r>` (r depending on that call)?"""
+    CALL = "call:process_existing_memento"
+    try:
+        if isinstance(x, ast.Attribute) and x.attr == "valid_result":
+            return CALL in fa.df.deps(x.value, node_id)
+        if isinstance(x, ast.Subscript) and isinstance(x.slice, ast.Constant) and x.slice.value == 1:
+            return CALL in fa.df.deps(x.value, node_id)
+        if isinstance(x, ast.Name) and isinstance(x.ctx, ast.Load) and depth > 0:
+            ds = fa.df.reaching(node_id, x.id)
+            hit = False
+            for d in ds:
+                if d.kind == "unpack" and isinstance(d.stmt, ast.Assign) and len(d.stmt.targets) == 1 and isinstance(d.stmt.targets[0], (ast.Tuple, ast.List)):
+                    elts = d.stmt.targets[0].elts
+                    if len(elts) == 2 and isinstance(elts[1], ast.Name) and elts[1].id == x.id and CALL in fa.df.deps(d.value, d.node):
+                        hit = True
+                elif d.kind == "assign" and d.value is not None and not isinstance(d.value, ast.Constant):
+                    if any(_is_valid_flag(fa, y, d.node, depth - 1) for y in [d.value]):
+                        hit = True
+            return hit
+    except Exception:  # noqa
+        return False
+    return False
+
+
 def check_recovery(ck):
     R = "C08.R3"
     ck.rule(R, "absorb and recover: I/O errors are absorbed around memoize in the local runner, around the read in "
                "process_existing_memento (=> not valid => recompute) and around the memento read in get_mementos "
                "(=> None); the partition-merge failure is an OSError", 4)
-    rl = FA(ck, "runner_local.memento_run_local")
-    mem = rl.some([c for c in rl.calls("memoize") if A.dotted(A.call_recv(c)) == "storage_backend"], "storage_backend.memoize call")
-    for c in mem:
+    rl0 = FA(ck, "runner_local.memento_run_local")
+    sites = [(rl0, c) for c in rl0.calls("memoize") if rl0.nodes(c) and rl0.xnorm(A.call_recv(c), rl0.nodes(c)[0]) == "storage_backend"]
+    if not sites:
+        # the write was moved into a helper that the front end could not fold back (e.g. it returns from inside
+        # the try): the clause is decided inside that helper, on the parameter that receives the backend
+        for (call, cands, how) in ck.cg.edges.get(rl0.qual, []):
+            for h in cands:
+                if h.module is not rl0.fi.module or h.cls is not None:
+                    continue
+                fh = FA(ck, h)
+                for c in fh.calls("memoize"):
+                    rv = A.call_recv(c)
+                    if isinstance(rv, ast.Name) and rv.id in h.params:
+                        passed = A.arg_or_kw(call, h.params.index(rv.id), rv.id)
+                        if passed is not None and rl0.nodes(call) and rl0.xnorm(passed, rl0.nodes(call)[0]) == "storage_backend":
+                            sites.append((fh, c))
+    ck.need(sites, "runner_local.memento_run_local: expected storage_backend.memoize call, found none")
+    for (rl, c) in sites:
         trys = _try_around(rl, c)
         hs = [h for t in trys for h in t.handlers if _handler_covers_oserror(h) and A.norm(h.type) not in ("Exception", "BaseException")]
         ok = bool(hs) and all(not any(isinstance(n, ast.Raise) for n in A.walk_local(h)) for h in hs[:1])
@@ -190,21 +439,43 @@ def check_recovery(ck):
         hs = [h for t in trys for h in t.handlers if _handler_covers_oserror(h)]
         ok = False
         if hs:
-            rets = [n for n in A.walk_local(hs[0]) if isinstance(n, ast.Return)]
-            ok = bool(rets) and all(isinstance(r.value, ast.Call) and A.kwarg(r.value, "valid_result") is not None
-                                    and A.norm(A.kwarg(r.value, "valid_result")) == "False" for r in rets) \
-                and not any(isinstance(n, ast.Raise) for n in A.walk_local(hs[0]))
+            # whatever the function returns on a path through the handler is "not valid" (early return in the
+            # handler or a result variable returned after the try), and nothing is re-raised
+            vals, raises = _after_handler(pe, hs[0])
+            ok = bool(vals) and not raises and all(_valid_flag_is(pe, e, n, False, IN) for (e, n, IN) in vals)
         ck.ob(R, pe.key(c, "read-error-means-invalid"), ok, "an I/O error while reading means 'not valid' (the caller recomputes)" if ok else
               "an I/O error while reading a memoized result is not turned into valid_result=False", pe.where(c))
     gm = FA(ck, "storage_base.DataSourceMetadataSource.get_mementos")
-    rm = gm.some([c for c in gm.calls("_read_memento")], "_read_memento call")
-    for c in rm:
+    rm = [c for c in gm.calls("_read_memento")]
+    if not rm:
+        # the guarded read was moved into a helper of the class that returns from inside its try (the front end
+        # does not fold that back): there, a path through the handler must answer None, and the caller must
+        # append that answer
+        A0 = Assume(gm, lambda e: None)
+        for (call, cands, how) in ck.cg.edges.get(gm.qual, []):
+            for h in cands:
+                if h.cls is not gm.fi.cls:
+                    continue
+                fh = FA(ck, h)
+                for c in fh.calls("_read_memento"):
+                    hs = [x for t in _try_around(fh, c) for x in t.handlers if _handler_covers_oserror(x)]
+                    ok = False
+                    if hs:
+                        vals, raises = _after_handler(fh, hs[0])
+                        ok = bool(vals) and not raises and all(A.is_none(e) for (e, n, IN) in vals)
+                        appended = [a for a in gm.calls("append") if len(a.args) == 1 and gm.nodes(a)
+                                    and any(e is call for (e, _) in A0.cases(a.args[0], gm.nodes(a)[0], gm.df.IN))]
+                        ok = ok and bool(appended)
+                    ck.ob(R, fh.key(c, "unreadable-means-absent"), ok, "an unreadable memento counts as absent" if ok else
+                          "an I/O error while reading a memento escapes get_mementos", fh.where(c))
+                    rm = None
+    ck.need(rm is None or rm, "storage_base.DataSourceMetadataSource.get_mementos: expected _read_memento call, found none")
+    for c in rm or []:
         trys = _try_around(gm, c)
         hs = [h for t in trys for h in t.handlers if _handler_covers_oserror(h)]
         ok = False
         if hs:
-            asg = [n for n in A.walk_local(hs[0]) if isinstance(n, ast.Assign) and A.is_none(n.value)]
-            ok = bool(asg) and not any(isinstance(n, (ast.Raise, ast.Return)) for n in A.walk_local(hs[0]))
+            ok = _handler_appends_none(gm, hs[0], c)
         ck.ob(R, gm.key(c, "unreadable-means-absent"), ok, "an unreadable memento counts as absent" if ok else
               "an I/O error while reading a memento escapes get_mementos", gm.where(c))
         # json damage (truncated file) is a ValueError: not required by the design table, noted
@@ -219,7 +490,8 @@ def check_recovery(ck):
     for qual in ("runner_local.memento_run_local", "runner_local.LocalRunnerBackend.batch_run"):
         f = FA(ck, qual)
         pcs = f.some(f.calls("process_existing_memento"), "process_existing_memento call")
-        tests = [n for n in f.cfg.nodes if n.kind == "test" and A.norm(n.ast).endswith(".valid_result")]
+        tests = [n for n in f.cfg.nodes if n.kind == "test" and n.id in f.cfg.reachable_nodes()
+                 and any(_is_valid_flag(f, x, n.id) for x in ast.walk(n.ast))]
         ck.ob(R, f.key(None, "valid-flag-tested"), bool(tests), "the valid flag decides between serve and compute" if tests else
               "%s does not branch on valid_result" % qual, f.where())
 
@@ -229,9 +501,52 @@ def check_readers_validate(ck):
     ck.rule(R, "readers validate: exists_nonversioned tests the pointer and the path it contains; presence queries "
                "of the metadata source go through it", 3)
     ex = FA(ck, FSDS + ".exists_nonversioned")
-    t1 = [n for n in ex.cfg.nodes if n.kind == "test" and ("exists" in A.norm(n.ast) or "isfile" in A.norm(n.ast) or "is_file" in A.norm(n.ast))]
     rd = ex.calls("_read_non_versioned_link")
-    ok = bool(t1) and bool(rd)
+    # decided on the answers: (1) no pointer file => every answer is False; (2) pointer present but the path it
+    # contains fails its test => every answer is False — whether the tests are if-statements, guard clauses or
+    # a conditional expression
+    hits = {"ptr": 0, "target": 0}
+    EXISTS = ("exists", "isfile", "is_file", "lexists")
+
+    def subject(e):
+        if not (isinstance(e, ast.Call) and A.call_attr(e) in EXISTS):
+            return None
+        sub = e.args[0] if (A.call_dotted(e) or "").startswith("os.path") and e.args else A.call_recv(e)
+        return _strip_path_wrappers(sub) if sub is not None else None
+
+    def is_ptr(e):
+        sub = subject(e)
+        return isinstance(sub, ast.Call) and A.call_attr(sub) == LINK_PATH
+
+    def is_target(e):
+        sub = subject(e)
+        return sub is not None and any(isinstance(x, ast.Call) and A.call_attr(x) == "_read_non_versioned_link" for x in ast.walk(sub))
+
+    def no_pointer(e):
+        if is_ptr(e):
+            hits["ptr"] += 1
+            return False
+        return None
+
+    def bad_target(e):
+        if is_ptr(e):
+            return True
+        if is_target(e):
+            hits["target"] += 1
+            return False
+        return None
+
+    def always_false(asm):
+        rets = [r for r in ex.returns() if asm.live(r)]
+        res = bool(rets)
+        for r in rets:
+            for i in asm.live(r):
+                for (leaf, n) in (asm.cases(r.value, i) if r.value is not None else [(None, i)]):
+                    if leaf is None or asm.truth(leaf, n) is not False:
+                        res = False
+        return res
+
+    ok = always_false(Assume(ex, no_pointer)) and always_false(Assume(ex, bad_target)) and hits["ptr"] > 0 and hits["target"] > 0 and bool(rd)
     ck.ob(R, ex.key(None, "two-level"), ok, "tests the pointer, then the designated path" if ok else
           "exists_nonversioned no longer checks both the pointer and the path it designates", ex.where())
     ae = FA(ck, FSDS + ".all_exist_nonversioned")
